@@ -94,16 +94,16 @@ const SPECS: &[PropSpec] = &[
     },
     PropSpec {
         id: "C16",
-        engine: "routersim",
-        level: "exploration",
+        engine: "netsim+routersim",
+        level: "fault_enumeration",
         runs_quick: 100000,
         runs_thorough: 2000000,
-        rule: "clients with wills (QoS 0-2, retained or not) ending by DISCONNECT packet or link failure at seeded points, PublishWill events as the per-connection task sends them; the will is an accepted message of the reference model iff no DISCONNECT was processed, so it must reach each matching subscription exactly once and never otherwise; non-trivial as C01",
+        rule: "two engines alternate (1 run in 8 is netsim): NETSIM - one seeded session of a client with (or without) a will on the real per-connection task over an in-memory stream (CONNECT, 0-3 further packets, then DISCONNECT / a protocol error / nothing), delivered up to EVERY byte offset and then cut, and at every frame boundary (and every 7th offset) left silent until the broker keep-alive expires; a watcher subscribed to the will topic counts will messages: exactly one iff CONNECT was delivered completely, a will was registered and no complete DISCONNECT was delivered; retained wills are then checked at a later subscriber; crash_points_enumerated counts these re-executions. ROUTERSIM - router half under the seeded scheduler: clients with wills ending by DISCONNECT packet or link failure at seeded points, PublishWill events as remote() sends them; the will is an accepted message of the reference model iff no DISCONNECT was processed. non-trivial: netsim = the crash point was judged; routersim = as C01",
         state_measure: "per router step: hash over connections of (tracker status, scheduled?, #tracked, #parked, inflight bucket, outgoing-buffer bucket, incoming bucket) + groups + graveyard size + channel bucket",
         real: ROUTER_REAL,
         stubbed: ROUTER_STUB,
         assumptions: ROUTER_ASSUME,
-        expected_probes: &["will_fired"],
+        expected_probes: &["will_fired", "will_not_expected", "cut_inside_session", "keepalive_expiry_waited"],
     },
     PropSpec {
         id: "C17",
@@ -163,6 +163,32 @@ const SPECS: &[PropSpec] = &[
         expected_probes: &["dec_rumqttc_v4", "dec_rumqttc_v5", "dec_rumqttd_v4", "dec_rumqttd_v5", "valid_stream", "mutated_stream", "random_stream", "boundary_header_stream", "one_byte_chunking", "structural_chunking", "eof_mid_frame", "eof_before_stream_end", "ref_malformed", "ref_need_more", "ref_clean", "ref_packets", "oversize_frame_seen", "wrap_eof", "wrap_error", "wrap_packets", "pending_injected", "decoded_connect", "decoded_connack", "decoded_publish", "decoded_puback", "decoded_pubrec", "decoded_pubrel", "decoded_pubcomp", "decoded_subscribe", "decoded_suback", "decoded_unsubscribe", "decoded_unsuback", "decoded_pingreq", "decoded_pingresp", "decoded_disconnect"],
     },
     PropSpec {
+        id: "C19",
+        engine: "netsim",
+        level: "exploration",
+        runs_quick: 40000,
+        runs_thorough: 800000,
+        rule: "one run = a v4 or v5 listener with one of four authentication configurations (none / static / external callback / both) and max_connections 2-4, an admitted witness subscribed to probe/#, then 1-6 connection attempts: first packet CONNECT / CONNECT of the other protocol version / non-CONNECT / garbage / nothing, client ids incl. + $ # / and empty, clean or not, keep-alive 0, logins absent / right / wrong, takeovers and departures; each followed by SUBSCRIBE + PUBLISH whose effect the witness observes; a reference admission predicate decides (left open where static and external credentials disagree); router snapshot invariants (distinct client ids, <= max_connections) after each attempt; non-trivial = at least 2 attempts",
+        state_measure: "not measured for this engine (distinct traces only)",
+        real: &["rumqttd server::broker::remote() (per-connection task) through Server::verif_accept", "rumqttd link::remote::{mqtt_connect, handle_auth, RemoteLink::new/start}", "rumqttd link::network::Network<V4|V5> and both broker codecs", "rumqttd LinkBuilder::build (block point steps the router)", "rumqttd::Router (whole routing core)", "rumqttc codecs (client side encode/decode)", "tokio current-thread runtime, paused clock, seeded RNG"],
+        stubbed: &["TCP accept loop Server::start (in-memory duplex handed to verif_accept)", "router OS thread (task calling the real run_inner then sleeping 0-3 virtual ms)", "clients: scripted byte writers/readers", "TLS, websocket, console, bridge, metrics not run"],
+        assumptions: &["one thread and a paused, auto-advancing clock are a faithful stand-in for the listener runtime + router thread (DESIGN.md 5.2)", "release semantics"],
+        expected_probes: &["attempt_admitted", "attempt_refused", "takeover", "first_packet_not_connect", "no_first_packet"],
+    },
+    PropSpec {
+        id: "C20",
+        engine: "netsim",
+        level: "exploration",
+        runs_quick: 40000,
+        runs_thorough: 800000,
+        rule: "one run = publisher and subscriber on a seeded pair of protocol versions (all four pairs), subscriber QoS 0-2, optional subscription identifier and topic-alias-maximum (v5), literal or wildcard filter, 1-8 publishes at QoS 0-2 with a seeded subset of the 7 MQTT 5 publish properties (2^7 subsets) incl. publisher topic aliases, plus PINGREQ / SUBSCRIBE / UNSUBSCRIBE to force every kind of reply; the subscriber decodes the broker's bytes with the rumqttc codec of its version; non-trivial = all messages compared",
+        state_measure: "not measured for this engine (distinct traces only)",
+        real: &["rumqttd server::broker::remote() (per-connection task) through Server::verif_accept", "rumqttd link::remote::{mqtt_connect, handle_auth, RemoteLink::new/start}", "rumqttd link::network::Network<V4|V5> and both broker codecs", "rumqttd LinkBuilder::build (block point steps the router)", "rumqttd::Router (whole routing core)", "rumqttc codecs (client side encode/decode)", "tokio current-thread runtime, paused clock, seeded RNG"],
+        stubbed: &["TCP accept loop Server::start (in-memory duplex handed to verif_accept)", "router OS thread (task calling the real run_inner then sleeping 0-3 virtual ms)", "clients: scripted byte writers/readers", "TLS, websocket, console, bridge, metrics not run"],
+        assumptions: &["one thread and a paused, auto-advancing clock are a faithful stand-in for the listener runtime + router thread (DESIGN.md 5.2)", "release semantics"],
+        expected_probes: &["pair_v4_to_v4", "pair_v4_to_v5", "pair_v5_to_v4", "pair_v5_to_v5"],
+    },
+    PropSpec {
     id: "C13",
     engine: "logsim",
     level: "exploration",
@@ -198,7 +224,17 @@ pub fn runner(id: &'static str, tier: Tier) -> Box<RunFn> {
         "C08" => Box::new(move |ch, rep| engines::routersim::run(engines::routersim::P::C08, tier, ch, rep)),
         "C14" => Box::new(move |ch, rep| engines::routersim::run(engines::routersim::P::C14, tier, ch, rep)),
         "C15" => Box::new(move |ch, rep| engines::routersim::run(engines::routersim::P::C15, tier, ch, rep)),
-        "C16" => Box::new(move |ch, rep| engines::routersim::run(engines::routersim::P::C16, tier, ch, rep)),
+        "C16" => Box::new(move |ch, rep| {
+            // two engines serve C16: the router half under the seeded scheduler
+            // (routersim) and the full stack with every cut offset (netsim)
+            if ch.pick(8) < 7 {
+                engines::routersim::run(engines::routersim::P::C16, tier, ch, rep)
+            } else {
+                engines::netsim::run(engines::netsim::NP::C16, tier, ch, rep)
+            }
+        }),
+        "C19" => Box::new(move |ch, rep| engines::netsim::run(engines::netsim::NP::C19, tier, ch, rep)),
+        "C20" => Box::new(move |ch, rep| engines::netsim::run(engines::netsim::NP::C20, tier, ch, rep)),
         "C17" => Box::new(move |ch, rep| engines::routersim::run(engines::routersim::P::C17, tier, ch, rep)),
         _ => panic!("no engine for {id}"),
     }
